@@ -791,6 +791,61 @@ def setter_rule(rep, prog, cfg):
                     args_from_param = True
             if from_self and args_from_param:
                 bad.append(short)
+        # ... and does not fold it into the old value (`self.offset += offset`, `Self { offset: self.offset + offset, .. }`): a field
+        # of the command computed by arithmetic from that same field and the parameter makes the setter an accumulator — the request
+        # then carries the sum of all calls
+        def fields_of(place):
+            return [e.get("n") or e.get("f") for e in place["p"] if isinstance(e, dict) and "f" in e]
+
+        def reads_field(local_or_place, fld, depth=4):
+            """does this operand (a place, or a local through copies) read field `fld` of self?"""
+            pl = local_or_place
+            if pl["l"] == 1 and fields_of(pl) == fld:
+                return True
+            if pl["p"] or depth <= 0:
+                return False
+            for _, _, s3 in b.stmts():
+                if s3["k"] == "assign" and s3["place"]["l"] == pl["l"] and not s3["place"]["p"] and s3["rv"]["k"] == "use":
+                    o3 = s3["rv"]["op"]
+                    p3 = (o3.get("copy") or o3.get("move")) if isinstance(o3, dict) else None
+                    if p3 is not None and reads_field(p3, fld, depth - 1):
+                        return True
+            return False
+
+        targets = []        # (field name, local holding the new value)
+        for bb, i, st in b.stmts():
+            if st["k"] != "assign":
+                continue
+            if st["place"]["l"] == 1 and st["place"]["p"] and st["rv"]["k"] in ("use", "binop"):
+                for k2 in ("op", "a", "b"):
+                    o = st["rv"].get(k2)
+                    pl = (o.get("copy") or o.get("move")) if isinstance(o, dict) else None
+                    if pl is not None and pl["l"] != 1:
+                        targets.append((fields_of(st["place"]), pl["l"]))
+            if st["rv"]["k"] == "agg" and st["rv"].get("agg") == "adt" and "mpd_client::commands::definitions::" in norm(st["rv"].get("adt_name") or ""):
+                for fname, o in zip(st["rv"].get("fields") or [], st["rv"]["ops"]):
+                    pl = (o.get("copy") or o.get("move")) if isinstance(o, dict) else None
+                    if pl is not None and pl["l"] != 1:
+                        targets.append(([fname], pl["l"]))
+        for fld, vl in targets:
+            _, seen = fl.sources([vl], through_call=None, follow_mut=False)
+            for _, _, s2 in b.stmts():
+                if s2["k"] != "assign" or s2["place"]["l"] not in seen or s2["rv"]["k"] != "binop" or s2["rv"]["op"].split("With")[0] not in ("Add", "Sub", "Mul", "BitOr", "BitXor"):
+                    continue
+                ops2 = []
+                for k2 in ("a", "b"):
+                    o = s2["rv"].get(k2)
+                    pl = (o.get("copy") or o.get("move")) if isinstance(o, dict) else None
+                    if pl is not None:
+                        ops2.append(pl)
+                old = any(reads_field(pl, fld) for pl in ops2)
+                par = False
+                for pl in ops2:
+                    lv, _ = fl.sources([pl["l"]], through_call=None, follow_mut=False)
+                    if any(x[0] == "param" and x[1] >= 2 for x in lv):
+                        par = True
+                if old and par and ("accumulate into `%s`" % ".".join(str(x) for x in fld)) not in bad:
+                    bad.append("accumulate into `%s`" % ".".join(str(x) for x in fld))
         rep.check(not bad, rule, "%s/%s stores its parameter" % (cfg, nm.rsplit("::", 2)[-2] + "::" + nm.rsplit("::", 1)[-1]), b.loc(b.span),
                   "%s hands its parameter to `%s` on a field of the command: a value set earlier is kept and the new one dropped, so the request is "
                   "rendered with a parameter other than the one last given" % (nm, ", ".join(bad)))
